@@ -1,4 +1,4 @@
 #!/bin/sh
 # development helper: rebuild the scratch copy at /tmp/vdev
 export GOFLAGS=-mod=mod GOPROXY=off GOSUMDB=off GOTOOLCHAIN=local
-cd /verif && go build -o bin/vcheck ./cmd/vcheck && rm -rf /tmp/vdev && bin/vcheck prepare /tmp/vdev >/dev/null && mkdir -p /tmp/vdev/real
+cd /verif && go build -o bin/vcheck ./cmd/vcheck && rm -rf /tmp/vdev && bin/vcheck prepare /tmp/vdev && mkdir -p /tmp/vdev/real
